@@ -200,7 +200,9 @@ type c02World struct {
 	ncon                int
 	nvol                int
 
-	lastExists bool // the last StoreSector call returned nil without calling the StoreFunc
+	volumeHook func() // one-shot: runs after the next Store.Volume read
+	staleSize  bool   // a ResizeVolume call was overtaken by another one (classification of monitor hits)
+	lastExists bool   // the last StoreSector call returned nil without calling the StoreFunc
 	heldRoots  map[int]bool
 
 	// the discipline of the RPC handlers, per root
@@ -278,6 +280,19 @@ func (s *c02Store) rec(op string, err error) {
 	if !s.dead {
 		s.w.step(op, c02Res(err))
 	}
+}
+
+// Volume is passed through; a one-shot hook lets a case hold the caller right after the read.
+func (s *c02Store) Volume(id int64) (storage.Volume, error) {
+	v, err := s.Store.Volume(id)
+	s.w.mu.Lock()
+	h := s.w.volumeHook
+	s.w.volumeHook = nil
+	s.w.mu.Unlock()
+	if h != nil {
+		h()
+	}
+	return v, err
 }
 
 func (s *c02Store) AddVolume(path string, ro bool) (int64, error) {
@@ -559,16 +574,17 @@ func (w *c02World) addVolume(size uint64) int64 {
 	return v.ID
 }
 
-func (w *c02World) resize(id int64, size uint64) {
+func (w *c02World) resize(id int64, size uint64) bool {
 	res := make(chan error, 1)
 	if err := w.vm.ResizeVolume(context.Background(), id, size, res); err != nil {
 		w.count("op:Resize:refused")
-		return
+		return false
 	}
 	err := <-res
 	w.count("op:Resize:" + c02Err(err))
 	w.waitReady(id)
 	w.snapshot()
+	return true
 }
 
 func (w *c02World) waitReady(id int64) {
@@ -752,6 +768,8 @@ func (w *c02World) read(r int, failIO bool) {
 		// StoreSector answers "exists" for any root that has a slot, whether or not the data was
 		// (durably) written: the three ways this makes an acknowledged reference unreadable
 		switch {
+		case w.staleSize:
+			w.monitor("resize-overtaken-by-earlier-resize-truncated-data", detail)
 		case w.viaHole[r]:
 			w.monitor("exists-ack-for-slot-left-without-data-by-crash", detail)
 		case w.viaHeld[r] && w.holeFailed[r]:
@@ -975,13 +993,58 @@ func (w *c02World) directed(id int) bool {
 		w.sync()
 		w.removeVolume(a, false)
 		w.readAll()
+	case 7: // a ResizeVolume call that read the volume size before an earlier resize finished
+		w.res.desc = "directed: ResizeVolume overtaken by an earlier resize"
+		a := w.addVolume(2)
+		w.write(1, false)
+		w.write(2, false)
+		w.sync()
+		w.addTemp([]int{1, 2}, 100)
+		reached, release := make(chan struct{}), make(chan struct{})
+		w.mu.Lock()
+		w.volumeHook = func() { // holds the caller right after it read the size
+			close(reached)
+			select {
+			case <-release:
+			case <-time.After(200 * time.Millisecond): // the read happens under the manager's lock: nothing can overtake
+			}
+		}
+		w.mu.Unlock()
+		res2 := make(chan error, 1)
+		started := make(chan error, 1)
+		go func() { started <- w.vm.ResizeVolume(context.Background(), a, 4, res2) }() // reads "2 sectors"
+		<-reached
+		overtaken := w.resize(a, 6) // the earlier resize completes: 6 sectors
+		if !overtaken {             // the second call already owns the volume: let it finish, then grow
+			if err := <-started; err == nil {
+				<-res2
+			}
+			w.waitReady(a)
+			w.snapshot()
+			w.resize(a, 6)
+		}
+		for r := 3; r <= 6; r++ {
+			w.write(r, false)
+		}
+		w.sync()
+		w.addTemp([]int{3, 4, 5, 6}, 100)
+		if overtaken {
+			w.staleSize = true
+			close(release)
+			if err := <-started; err == nil {
+				<-res2
+			}
+		}
+		w.waitReady(a)
+		w.snapshot()
+		w.readAll()
 	default:
 		return false
 	}
 	return true
 }
 
-const c02Directed = 7
+const c02Directed = 8
 
 func (w *c02World) volumeIDs() (ids []int64) {
 	vols, err := w.db.Volumes()
